@@ -221,41 +221,52 @@ func fmtErrorLocationBodyLine(isNativeModule bool, moduleName string, lineNum in
 //	如果代码不为空：
 //	   ^
 func fmtErrorSourceLineWithParser(p *syntax.Parser, cursorIdx int, withCursorMark bool) string {
-	startIdx := cursorIdx
-	endIdx := startIdx
-	// append EOF to source to avoid index exceed exception
-	sourceT := append(p.GetSource(), 0)
-	for sourceT[startIdx] == syntax.RuneCR || sourceT[startIdx] == syntax.RuneLF {
+	source := p.GetSource()
+	n := len(source)
+	isLineBreak := func(idx int) bool {
+		return source[idx] == syntax.RuneCR || source[idx] == syntax.RuneLF
+	}
+	// keep the cursor inside [0, n]
+	if cursorIdx > n {
+		cursorIdx = n
+	}
+	if cursorIdx < 0 {
+		cursorIdx = 0
+	}
+	// when the cursor is on a line break, quote the line that ends there
+	pos := cursorIdx
+	for pos > 0 && pos < n && isLineBreak(pos) {
+		pos -= 1
+	}
+	// find the first char of the line
+	startIdx := pos
+	for startIdx > 0 && !isLineBreak(startIdx-1) {
 		startIdx -= 1
 	}
-	// find prev until meeting first CR/LF
-	for startIdx > 0 {
-		if sourceT[startIdx] == syntax.RuneCR || sourceT[startIdx] == syntax.RuneLF {
-			startIdx += 1
-			// skip indent chars
-			for sourceT[startIdx] == syntax.RuneSP || sourceT[startIdx] == syntax.RuneTAB {
-				startIdx += 1
-			}
-			break
-		}
-		startIdx -= 1
-	}
-	// find next until meeting first CR/LF
-	for endIdx < len(sourceT) {
-		if sourceT[endIdx] == syntax.RuneCR || sourceT[endIdx] == syntax.RuneLF {
-			break
-		}
+	// find the end of the line (the first CR/LF or the end of source)
+	endIdx := pos
+	for endIdx < n && !isLineBreak(endIdx) {
 		endIdx += 1
+	}
+	// skip indent chars
+	for startIdx < endIdx && (source[startIdx] == syntax.RuneSP || source[startIdx] == syntax.RuneTAB) {
+		startIdx += 1
 	}
 
 	// get relative cursor offset (notice one Chinese char counts for 2 unit offsets)
-	lineText := string(sourceT[startIdx:endIdx])
+	lineText := string(source[startIdx:endIdx])
 	fmtLine := fmt.Sprintf("    %s", lineText)
 	if withCursorMark {
-		cursorText := fmt.Sprintf("\n    %s^", strings.Repeat(" ", calcCursorOffset(lineText, cursorIdx-startIdx)))
+		col := cursorIdx - startIdx
+		if col < 0 {
+			col = 0
+		}
+		if col > endIdx-startIdx {
+			col = endIdx - startIdx
+		}
+		cursorText := fmt.Sprintf("\n    %s^", strings.Repeat(" ", calcCursorOffset(lineText, col)))
 		fmtLine += cursorText
 	}
-
 	return fmtLine
 }
 
